@@ -210,18 +210,13 @@ Definition c14c_ok (c : c14ccase) : bool :=
   let '(stream, ops, outs) := c in list_eqb cout_eqb (cf_run (cf_init stream) ops) outs.
 Definition c14c_mismatches (cs : list c14ccase) : list N := bad_indexes c14c_ok cs.
 
-(** slab case: capacity, requested sizes, observed per allocation: (inside the shared buffer?, offset
-    inside it, len(s.buf) afterwards) *)
-Definition c14scase := (N * list N * list (bool * N * N))%type.
-Fixpoint slab_trace (s : slab) (ns : list nat) : list (bool * N * N) :=
-  match ns with
-  | [] => []
-  | n :: r => let '(s', g) := slab_alloc s n in
-              (rg_shared g, N.of_nat (rg_off g), N.of_nat (sl_used s')) :: slab_trace s' r
-  end.
-Definition obs_eqb (a b : bool * N * N) : bool :=
-  let '(a1, a2, a3) := a in let '(b1, b2, b3) := b in Bool.eqb a1 b1 && N.eqb a2 b2 && N.eqb a3 b3.
+(** slab case: capacity, requested sizes, observed (len, cap) of every returned slice.  Offsets inside the
+    shared buffer are internal (not compared, so a different packing policy does not alarm); that returned
+    slices never alias is checked on the implementation by the harness' fill-pattern oracle and proved of the
+    model ([slab_disjoint]). *)
+Definition c14scase := (N * list N * list (N * N))%type.
+Definition obs_eqb (a b : N * N) : bool := N.eqb (fst a) (fst b) && N.eqb (snd a) (snd b).
 Definition c14s_ok (c : c14scase) : bool :=
   let '(cap, ns, obs) := c in
-  list_eqb obs_eqb (slab_trace (slab_new (N.to_nat cap)) (map N.to_nat ns)) obs.
+  list_eqb obs_eqb (map (fun r => (N.of_nat (rg_len r), N.of_nat (rg_len r))) (slab_run (slab_new (N.to_nat cap)) (map N.to_nat ns))) obs.
 Definition c14s_mismatches (cs : list c14scase) : list N := bad_indexes c14s_ok cs.
